@@ -139,7 +139,7 @@ class Ctx:
         self.inconclusive = []
         self.extra = {}                  # free-form coverage counters
         self.t0 = time.time()
-        self._case = None
+        self.current_case = None         # replayable case of the executor that is running (used by monitor-originated violations)
 
     # -- randomness -------------------------------------------------------------------------
     def rng(self, *stream):
@@ -194,6 +194,8 @@ class Ctx:
     def violate(self, clause, case, observed=None, expected=None, tags=None, tb=None, note=None):
         """Record a violation of this property. `case` = {"exec":..., "args":...} replayable."""
         self.n_violations += 1
+        if isinstance(case, dict) and case.get("exec") == "noop" and self.current_case is not None:
+            case = self.current_case     # a post-condition fired inside an executor: replay that executor's case
         if len(self.violations) >= self.MAX_VIOL:
             # keep counting per clause so nothing is silently lost
             self.add("violations_dropped_over_cap")
